@@ -37,6 +37,8 @@ struct Op {
     #[serde(default)]
     null_channel: bool,
     #[serde(default)]
+    reuse: bool,
+    #[serde(default)]
     after_destroy: bool,
     // db ops
     #[serde(default)]
@@ -295,6 +297,9 @@ fn client_ops(sc: &Scenario, sink: &Sink) {
         let mut peer: Option<TcpStream> = None;
         let mut destroyed = false;
         let mut enabled = false;
+        // lists owned by the application: a list may be used for more than one call
+        let mut bit_list: Option<(*mut rodbus_ffi::BitList, Vec<u32>)> = None;
+        let mut reg_list: Option<(*mut rodbus_ffi::RegisterList, Vec<u32>)> = None;
         for (i, st) in sc.steps.iter().enumerate() {
             if st.op == "enable" || st.op == "disable" {
                 let rc = if st.op == "enable" { ffi::rodbus_client_channel_enable(ch) } else { ffi::rodbus_client_channel_disable(ch) };
@@ -347,23 +352,39 @@ fn client_ops(sc: &Scenario, sink: &Sink) {
                 }
                 15 => {
                     let cb = ffi::WriteCallback { on_complete: Some(write_complete), on_failure: Some(on_failure), on_destroy: Some(on_destroy), ctx: cp };
-                    let list = ffi::rodbus_bit_list_create(st.values.len() as u32);
-                    for v in &st.values {
-                        ffi::rodbus_bit_list_add(list, *v != 0);
-                    }
-                    let rc = ffi::rodbus_client_channel_write_multiple_coils(chan, param, st.start as u16, list, cb);
-                    ffi::rodbus_bit_list_destroy(list);
-                    rc
+                    let list = match &bit_list {
+                        Some((l, v)) if st.reuse && *v == st.values => *l,
+                        _ => {
+                            if let Some((l, _)) = bit_list.take() {
+                                ffi::rodbus_bit_list_destroy(l);
+                            }
+                            let list = ffi::rodbus_bit_list_create(st.values.len() as u32);
+                            for v in &st.values {
+                                ffi::rodbus_bit_list_add(list, *v != 0);
+                            }
+                            bit_list = Some((list, st.values.clone()));
+                            list
+                        }
+                    };
+                    ffi::rodbus_client_channel_write_multiple_coils(chan, param, st.start as u16, list, cb)
                 }
                 _ => {
                     let cb = ffi::WriteCallback { on_complete: Some(write_complete), on_failure: Some(on_failure), on_destroy: Some(on_destroy), ctx: cp };
-                    let list = ffi::rodbus_register_list_create(st.values.len() as u32);
-                    for v in &st.values {
-                        ffi::rodbus_register_list_add(list, *v as u16);
-                    }
-                    let rc = ffi::rodbus_client_channel_write_multiple_registers(chan, param, st.start as u16, list, cb);
-                    ffi::rodbus_register_list_destroy(list);
-                    rc
+                    let list = match &reg_list {
+                        Some((l, v)) if st.reuse && *v == st.values => *l,
+                        _ => {
+                            if let Some((l, _)) = reg_list.take() {
+                                ffi::rodbus_register_list_destroy(l);
+                            }
+                            let list = ffi::rodbus_register_list_create(st.values.len() as u32);
+                            for v in &st.values {
+                                ffi::rodbus_register_list_add(list, *v as u16);
+                            }
+                            reg_list = Some((list, st.values.clone()));
+                            list
+                        }
+                    };
+                    ffi::rodbus_client_channel_write_multiple_registers(chan, param, st.start as u16, list, cb)
                 }
             };
             sink.emit(json!({"e":"ffi_call","op":"request","ret":rc,"r":i}));
@@ -407,9 +428,55 @@ fn client_ops(sc: &Scenario, sink: &Sink) {
                 }
             }
         }
+        if let Some((l, _)) = bit_list.take() {
+            ffi::rodbus_bit_list_destroy(l);
+        }
+        if let Some((l, _)) = reg_list.take() {
+            ffi::rodbus_register_list_destroy(l);
+        }
         if !destroyed {
             ffi::rodbus_client_channel_destroy(ch);
         }
+        ffi::rodbus_runtime_destroy(rt);
+    }
+}
+
+/// queue depth: max_queued_requests = N, a peer that never answers; one request in flight, N more fit, the rest
+/// is refused with TooManyRequests -- and every completion still fires exactly once
+fn client_queue(sc: &Scenario, sink: &Sink) {
+    unsafe {
+        let rt = runtime();
+        let listener = TcpListener::bind("127.0.0.1:0").unwrap();
+        let port = listener.local_addr().unwrap().port();
+        let lctx = Box::leak(Box::new(ListenerCtx { sink: sink.clone(), state: Mutex::new(-1) }));
+        let l = ffi::ClientStateListener { on_change: Some(on_state), on_destroy: None, ctx: lctx as *mut ListenerCtx as *mut c_void };
+        let host = CString::new("127.0.0.1").unwrap();
+        let mut ch: *mut rodbus_ffi::ClientChannel = std::ptr::null_mut();
+        let n = sc.queue.max(1);
+        let rc = ffi::rodbus_client_channel_create_tcp(rt, host.as_ptr(), port, n, ffi::RetryStrategy { min_delay: 100, max_delay: 400 }, decode0(), l, &mut ch);
+        sink.emit(json!({"e":"ffi_create","ret":rc}));
+        ffi::rodbus_client_channel_enable(ch);
+        let (_peer, _) = listener.accept().unwrap();
+        wait_for(|| *lctx.state.lock().unwrap() == 2, 2000);
+        let total = n as usize + 4;
+        let mut ctxs = Vec::new();
+        for k in 0..total {
+            let ctx = Box::leak(Box::new(CbCtx { sink: sink.clone(), r: k as u64, completions: AtomicU64::new(0), destroys: AtomicU64::new(0), done: AtomicBool::new(false), t0: Instant::now() }));
+            let cb = ffi::RegisterReadCallback { on_complete: Some(regs_complete), on_failure: Some(on_failure), on_destroy: Some(on_destroy), ctx: ctx as *mut CbCtx as *mut c_void };
+            let rc = ffi::rodbus_client_channel_read_holding_registers(ch, ffi::RequestParam { unit_id: 1, timeout: 250 }, ffi::AddressRange { start: 0, count: 1 }, cb);
+            sink.emit(json!({"e":"q_call","k":k,"ret":rc,"n":n}));
+            ctxs.push(ctx);
+            if k == 0 {
+                // let the task take the first request out of the queue: it is now in flight
+                std::thread::sleep(Duration::from_millis(120));
+            }
+        }
+        let all = wait_for(|| ctxs.iter().all(|c| c.done.load(Ordering::SeqCst)), 250 * (total as u64 + 2) + 3000);
+        std::thread::sleep(Duration::from_millis(50));
+        sink.emit(json!({"e":"q_end","all_completed":all,"n":n,
+            "completions": ctxs.iter().map(|c| c.completions.load(Ordering::SeqCst)).collect::<Vec<u64>>(),
+            "destroys": ctxs.iter().map(|c| c.destroys.load(Ordering::SeqCst)).collect::<Vec<u64>>()}));
+        ffi::rodbus_client_channel_destroy(ch);
         ffi::rodbus_runtime_destroy(rt);
     }
 }
@@ -624,6 +691,7 @@ fn main() {
         let r = std::panic::catch_unwind(std::panic::AssertUnwindSafe(|| match sc.kind.as_str() {
             "write_results" => write_results(&sc, &sink),
             "client_ops" => client_ops(&sc, &sink),
+            "client_queue" => client_queue(&sc, &sink),
             "db_seq" => db_seq(&sc, &sink),
             _ => db_stress(&sc, &sink),
         }));
